@@ -40,6 +40,9 @@ class MinSetCover():
         self.universe = universe
         self.subsets = subsets
         self.subset_weights = subset_weights
+        if self.subset_weights is None:
+            # As documented: if not provided, each subset has weight 1
+            self.subset_weights = [1] * len(subsets)
         self.set_cover = []
         self.set_cover_indices = []
         self.set_cover_weights = []
